@@ -874,8 +874,12 @@ def discharge(site, F=None):
 
 def upper_bound_by_type(b, o, depth=0):
     """max value an integer operand can take because it was (checked-)converted from a narrower integer type"""
+    NARROW = {"u8": 255, "u16": 65535, "i8": 127, "i16": 32767, "i32": 2 ** 31 - 1, "u32": 2 ** 32 - 1}
     while depth < 10:
         depth += 1
+        l0 = op_local(o)
+        if l0 is not None and b.local_ty(l0)["s"] in NARROW:
+            return NARROW[b.local_ty(l0)["s"]]
         k = canon(b, o)
         if k[0] == "const":
             return k[1] if k[1] is not None and k[1] >= 0 else None
